@@ -279,6 +279,60 @@ class ProgramOptionsSave(Contract):
                         skips_defaulted = True
         ex.obls.append(Obligation('ProgramOptions::save#skip.defaulted_entries_are_unmodified', {'C13'}, [], z3.BoolVal(not (skips_defaulted and copies)), 'postcondition', None,
                                   f'save() skips defaulted entries: {skips_defaulted}; parse() changes stored values in place without clearing the flag: {sorted(copies)}'))
+        # ---- text round trip of floating-point values: "exactly the same value for every option" needs max_digits10 significant digits
+        # (9 for float, 17 for double); the default stream precision of 6 digits does not reproduce e.g. RevolutionFrequency=2715563.7
+        NEED = {'float': 9, 'double': 17, 'std::vector<float>': 9}
+
+        def prec_value(node):
+            # precision(n) / setprecision(n) with a literal or numeric_limits<T>::max_digits10 (or digits10 + k is not accepted)
+            for x in _walk(node):
+                if x.get('kind') == 'DeclRefExpr' and (x.get('referencedDecl') or {}).get('name') == 'max_digits10':
+                    q = x.get('type', {}).get('qualType', '')
+                    for y in [x] + list(_walk(node)):
+                        pass
+                    t = None
+                    import re as _re
+                    txt = json_text(node)
+                    m = _re.search(r'numeric_limits<([^>]*)>', txt)
+                    t = m.group(1).strip() if m else None
+                    return {'float': 9, 'double': 17, 'long double': 21}.get(t)
+            lits = [int(x.get('value')) for x in _walk(node) if x.get('kind') == 'IntegerLiteral']
+            return lits[0] if len(lits) == 1 else None
+
+        def json_text(node):
+            import json as _json
+            return _json.dumps(node)
+
+        def prec_sites(root):
+            out = []
+            for x in _walk(root):
+                if x.get('kind') == 'CXXMemberCallExpr' and x['inner'][0].get('kind') == 'MemberExpr' and x['inner'][0].get('name') == 'precision' and len(x['inner']) == 2:
+                    out.append(prec_value(x['inner'][1]))
+                if x.get('kind') == 'CallExpr':
+                    c_ = x['inner'][0]
+                    while c_.get('kind') in ('ImplicitCastExpr', 'ParenExpr'):
+                        c_ = c_['inner'][0]
+                    if (c_.get('referencedDecl') or {}).get('name') == 'setprecision' and len(x['inner']) == 2:
+                        out.append(prec_value(x['inner'][1]))
+            return out
+        sb = body(save)
+        top = []
+        for st_ in sb.get('inner', []):
+            if st_.get('kind') in ('ForStmt', 'CXXForRangeStmt', 'WhileStmt'):
+                break
+            top += prec_sites(st_)
+        global_prec = max([v for v in top if v is not None], default=6)
+        for n in _walk(save):
+            if n.get('kind') != 'IfStmt':
+                continue
+            tids = [(x.get('typeArg', {}).get('desugaredQualType') or x.get('typeArg', {}).get('qualType') or '').strip() for x in _walk(n['inner'][0]) if x.get('kind') == 'CXXTypeidExpr']
+            tids = [typename(norm.get(t, t)) for t in tids]
+            for T in tids:
+                if T in NEED:
+                    local = [v for v in prec_sites(n['inner'][1]) if v is not None]
+                    have = max(local + [global_prec])
+                    ex.obls.append(Obligation(f'ProgramOptions::save#text.{T.replace("std::", "").replace("<", "_").replace(">", "")}_values_round_trip', {'C13'}, [], z3.BoolVal(have >= NEED[T]), 'postcondition', line_of(n),
+                                              f'values of type {T} are written with {have} significant digits; {NEED[T]} (max_digits10) are needed for the text to reproduce the value exactly'))
         # ---- alpha0: written as 0 only when the synchrotron frequency is the one in use (f_s != 0)
         if alpha_if is None:
             raise ExtractionError('ProgramOptions::save: alpha0 special case not found')
